@@ -129,6 +129,17 @@ template<class V> void do_set_bits(const char* type, const std::vector<uint64_t>
 template<class T> struct ValGen;   // supplied by the including file: values for mask(vector)
 
 template<class V>
+__attribute__((noinline)) void flip_flow(std::array<bool, V::width>& flags, unsigned idx, uint64_t* g) {
+    typedef typename V::mask M;
+    M m1{flags};
+    flags[idx] = !flags[idx];
+    M m2{flags};
+    flags[idx] = !flags[idx];
+    M m3{flags};
+    g[0] = obs<V>(m1); g[1] = obs<V>(m2); g[2] = obs<V>(m3);
+}
+
+template<class V>
 void run_c03(const char* type) {
     typedef typename V::mask M;
     typedef typename V::scalar T;
@@ -171,6 +182,30 @@ void run_c03(const char* type) {
                 c.lanes += W;
                 if (got != a || cnt != (uint64_t)__builtin_popcountll(a) || al != (a == full) || an != (a != 0) || !eqself)
                     viol("value", cls, -1, "a=" + hex(a) + ",fill=" + std::to_string(fill), hex(got) + "/count=" + std::to_string(cnt) + "/all=" + std::to_string(al) + "/eq=" + std::to_string(eqself), hex(a));
+            }
+        }
+        end_cell();
+    }
+    // two-step flow: construct from an array that lives in memory (passed by reference), write ONE element through
+    // the array (run-time index), construct again.  The second mask must see the write: a type-punned read of the
+    // array inside the constructor must not be merged with the earlier one across the element store.
+    if (begin_cell("C03", type, "ctor_array_after_element_write")) {
+        Cell& c = cell();
+        uint64_t lim = pats.size() > 4000 ? 4000 : pats.size();
+        static std::array<bool, V::width> flags;
+        for (uint64_t k = 0; k < lim; ++k) {
+            uint64_t a = pats[k * (pats.size() / lim)];
+            for (unsigned step = 0; step < 3; ++step) {
+                unsigned idx = (unsigned)((k * 7 + step * 5) % W);
+                flags = MB<W>::from(a);
+                uint64_t g[3];
+                flip_flow<V>(flags, idx, g);
+                uint64_t e2 = a ^ (1ull << idx);
+                uint32_t cls = mcls(a, full);
+                c.cases++; c.lanes += 3 * W; c.cls_add(cls | 0x200);
+                if (c.cases <= 2) add_sample("mask(array); array[i] = !array[i]; mask(array) pattern " + hex(a));
+                if (g[0] != a || g[1] != e2 || g[2] != a)
+                    viol("value", cls, (int)idx, "a=" + hex(a) + ",flipped_index=" + std::to_string(idx), hex(g[0]) + "," + hex(g[1]) + "," + hex(g[2]), hex(a) + "," + hex(e2) + "," + hex(a));
             }
         }
         end_cell();
